@@ -571,6 +571,23 @@ class Interp:
                 pass
         return path
 
+    def decode_const(self, j):
+        """value of a constant table emitted by the driver (integers, field-less enums, tuples, arrays)"""
+        if 'int' in j:
+            return INT(j['int'])
+        if 'bool' in j:
+            return ('bool', j['bool'])
+        if 'enum' in j:
+            e = j['enum']
+            return agg(e['adt'], e['variant'], e['vi'], ())
+        if 'tuple' in j:
+            xs = [self.decode_const(x) for x in j['tuple']]
+            return None if any(x is None for x in xs) else agg('tuple', '', 0, [(str(i), x) for i, x in enumerate(xs)])
+        if 'array' in j:
+            xs = [self.decode_const(x) for x in j['array']]
+            return None if any(x is None for x in xs) else agg('array', '', 0, [(str(i), x) for i, x in enumerate(xs)])
+        return None
+
     def index_path(self, st, path, iv):
         """`c[i]` where i is the variable of `for i in 0..c.len()`: the element of that iteration, named exactly as the element of
         `for x in c.iter()` is, so that an indexed loop over a collection and an iterator loop over it have the same facts."""
@@ -613,6 +630,10 @@ class Interp:
             return ('constref', agg(e['adt'], e['variant'], e['vi'], ()))
         if 'ref_int' in c:
             return ('constref', INT(c['ref_int']))
+        if 'ref_const' in c:
+            v = self.decode_const(c['ref_const'])
+            if v is not None:
+                return ('constref', v)
         if 'fn' in c:
             r = c['fn'].get('resolved')
             return ('fnitem', c['fn']['path'], r['key'] if r else None, c['fn']['def'],
@@ -1803,6 +1824,10 @@ class Interp:
                     return r
             st.eff.append(('consume', name, a0, tuple(args[1:]), site))
             return (name, a0) + tuple(args[1:])
+        if decl == 'std::iter::Iterator::find' and not self.local_body(t) and len(args) == 2:
+            r = self.find_in_const(st, fr, self.strip_ref(st, a0), args[1], dest, t['target'], site, loopctx, work, finished)
+            if r is not None:
+                return r
         if decl == 'std::iter::once' and not self.local_body(t):
             return ('once', a0)
         if decl == 'std::iter::Iterator::chain' and not self.local_body(t) and len(args) == 2:
@@ -1971,6 +1996,77 @@ class Interp:
                         return self.F.fns.get(m['key'])
         return None
 
+    def closure_arg(self, st, target, f, site):
+        """first argument of a closure body: the closure itself (FnOnce) or a reference to it (Fn / FnMut bodies take `&self`)"""
+        if f[0] == 'closure' and len(target.get('locals', [])) > 1 and target['locals'][1]['ty'].startswith('&'):
+            root = ('T', ('closure_env', site))
+            st.mem[(root, ())] = f
+            return ('ref', (root, ()))
+        return f
+
+    def find_in_const(self, st, fr, it, f, dest, ret_target, site, loopctx, work, finished):
+        """`TABLE.iter().find(|e| pred(e))` over a constant array with a pure closure of this crate: the search is unrolled —
+        one path per element (the predicates of the earlier elements false, this one true, result Some(&element)) and one path
+        on which every predicate is false (None) — which is the decision tree a `match` over the same table compiles to."""
+        if not (isinstance(it, tuple) and it and it[0] == 'iter'):
+            return None
+        coll = it[1]
+        while isinstance(coll, tuple) and coll and coll[0] in ('deref',):
+            coll = coll[1]
+        if isinstance(coll, tuple) and coll and coll[0] == 'constref':
+            coll = coll[1]
+        if not is_agg(coll, 'array') or any(
+                isinstance(x, tuple) and x and x[0] not in ('agg', 'int', 'bool', 'f64') for _, x in coll[4]):
+            return None                 # only a table of constants
+        elems = [v for _, v in coll[4]]
+        if f[0] != 'closure' or len(elems) > 64:
+            return None
+        target = self.F.fns.get(f[1])
+        if target is None or 'blocks' not in target or target.get('krate') != self.F.crate:
+            return None
+        depth = len(st.frames) + 1
+        preds = []
+        for el in elems:
+            probe = st.fork()
+            # Iterator::find hands the predicate a reference to the item, and the item of a slice iterator is itself a reference
+            self.push_frame(probe, probe.frames[-1], target, [self.closure_arg(probe, target, f, site), ('constref', ('constref', el))],
+                            dest, ret_target, site)
+            res = []
+            saved = self.npaths
+            self.explore([probe], ('ret', depth), res)
+            self.npaths = saved
+            exits = [x for x in res if x.status == 'exit']
+            if len(exits) != 1 or len(res) != 1 or len(exits[0].eff) != len(st.eff):
+                return None             # not a pure single-path predicate
+            preds.append(self.read(exits[0], dest))
+
+        def constrain(s_, pr, truth):
+            if pr[0] == 'bin' and pr[1] in ('Eq', 'Ne') and pr[3][0] == 'int' and pr[2][0] != 'int':
+                eq = (pr[1] == 'Eq') == truth
+                s_.cons.append((pr[2], pr[3][1] if eq else ('not', (pr[3][1],))))
+            else:
+                s_.cons.append((pr, 1 if truth else 0))
+        for i, (el, pr) in enumerate(zip(elems, preds)):
+            if pr == ('bool', False):
+                continue
+            s2 = st.fork()
+            for pj in preds[:i]:
+                if pj[0] != 'bool':
+                    constrain(s2, pj, False)
+            if pr[0] != 'bool':
+                constrain(s2, pr, True)
+            self.write(s2, dest, SOME(('constref', el)))
+            if ret_target is not None:
+                s2.frames[-1].block = ret_target
+                if not self.leaves(s2, ret_target, loopctx, finished):
+                    work.append(s2)
+            if pr == ('bool', True):
+                return 'stop'
+        for pj in preds:
+            if pj[0] != 'bool':
+                constrain(st, pj, False)
+        return NONE
+
     def virtual_loop(self, st, fr, name, it, rest, dest, ret_target, site, loopctx, finished):
         """`iter.for_each(|x| body)` and `iter.fold(init, |acc, x| body)` with a closure (or fn item) of this crate are the loops
         `for x in iter { body }` / `let mut acc = init; for x in iter { acc = body }`: the closure is explored once with the loop's
@@ -1996,7 +2092,7 @@ class Interp:
         el = self.elem_of(base, site)
         acc_lv = ('lv', lvname, 'acc')
         argv = [el] if name == 'for_each' else [acc_lv, el]
-        cargs = ([f] + argv) if f[0] == 'closure' else argv
+        cargs = ([self.closure_arg(st, target, f, site)] + argv) if f[0] == 'closure' else argv
         entry_mem = dict(st.mem)
         depth = len(st.frames) + 1
 
